@@ -310,6 +310,16 @@ def m_choice(kind):
         if kind == "dup":
             ch[1] = {"list_name": "c", "name": "x", "label": "X2"}
             return E(1, True, ["x"], sheet="choices")
+        if kind in ("dup-nolabel-first", "dup-nolabel-second", "dup-nolabel-both", "dup-third"):
+            # the duplicate is refused whether or not the rows involved have a label (label-less choices only draw a warning)
+            ch.append({"list_name": "c", "name": "x", "label": "X2"})
+            if kind in ("dup-nolabel-first", "dup-nolabel-both"):
+                ch[0].pop("label")
+            if kind in ("dup-nolabel-second", "dup-nolabel-both"):
+                ch[2].pop("label")
+            if kind == "dup-third":
+                ch[1].pop("label")
+            return E(2, True, sheet="choices")
         if kind == "invalid-mult":
             ch[1] = {"list_name": "c", "name": "y y", "label": "Y"}
             k = next((k for k, r in enumerate(rows) if r["type"] == "select_one c"), None)
@@ -473,6 +483,15 @@ def m_seq(kind):
             rows[0:0] = [{"type": "text", "name": "trg9", "label": "T"}, {"type": "background-geopoint", "name": "bgv9", "trigger": "${trg9}"},
                          {"type": "begin group", "name": "gtz9", "label": "G"}, {"type": "background-geopoint", "name": "bgv8", "trigger": "${trg9}"}, {"type": "end group"}]
             return E(k + 5, True)
+        if kind in ("file-stem-clash", "file-stem-clash-3"):
+            # selects from files whose names share a stem but not the extension: one instance id for two sources
+            if i != 0:
+                raise Skip
+            rows.extend([{"type": "select_one_from_file zz1.csv", "name": "fs1", "label": "F"}, {"type": "begin group", "name": "gz9", "label": "G"},
+                         {"type": "select_multiple_from_file zz1.xml", "name": "fs2", "label": "F"}, {"type": "end group"}])
+            if kind.endswith("3"):
+                rows.append({"type": "select_one_from_file zz1.geojson", "name": "fs3", "label": "F"})
+            return E(None, False, ["zz1"])
         if kind in ("tablelist-from-file", "tablelist-ref-list"):
             # the selects of a table-list group must use a list of the choices sheet
             if q or rows[k]["type"] != "begin group":
@@ -517,6 +536,8 @@ CATALOGUE = {
     "space-choice-second-multiple": m_seq("space-choice-second-multiple"),
     "bg-trigger-unknown-after-valid": m_seq("bg-trigger-unknown-after-valid"),
     "bg-trigger-group-after-valid": m_seq("bg-trigger-group-after-valid"),
+    "file-stem-clash": m_seq("file-stem-clash"),
+    "file-stem-clash-3": m_seq("file-stem-clash-3"),
     "tablelist-from-file": m_seq("tablelist-from-file"),
     "tablelist-ref-list": m_seq("tablelist-ref-list"),
     "search-list-shared-with-randomize": m_seq("search-list-shared-with-randomize"),
@@ -558,6 +579,10 @@ CATALOGUE = {
     "tablelist-mixed": m_misc("tablelist-mixed"),
     "choice-nameless": m_choice("nameless"),
     "choice-dup": m_choice("dup"),
+    "choice-dup-nolabel-first": m_choice("dup-nolabel-first"),
+    "choice-dup-nolabel-second": m_choice("dup-nolabel-second"),
+    "choice-dup-nolabel-both": m_choice("dup-nolabel-both"),
+    "choice-dup-third": m_choice("dup-third"),
     "choice-space-multiple": m_choice("invalid-mult"),
     # parameters
     "param-unknown-key": m_param("text", "foo=1", False, ["foo"]),
